@@ -142,7 +142,7 @@ macro_rules! alias_mod {
                             viol(acc, "table_mass", ws, format!("index {i}: table mass {:e} vs n*w = {want:e} (tol {:e})", mass[i], tol * nf), profile);
                             return None;
                         }
-                        law[i] = mass[i] / (nf * sf);
+                        law[i] = (mass[i] / sf) / nf;
                     }
                     acc.weights_checks += 1;
                     match guarded(|| d.weights()) {
@@ -245,7 +245,7 @@ macro_rules! alias_mod {
                                 let res = guarded(|| d.sample(&mut r));
                                 adv_execs += 1;
                                 let bad = match res {
-                                    Caught::Ok(i) => if i >= len { Some(format!("index {i} >= len {len}")) } else if law[i] == 0.0 { Some(format!("index {i} has zero weight")) } else { None },
+                                    Caught::Ok(i) => if i >= len { Some(format!("index {i} >= len {len}")) } else if ws[i] == (0 as W) { Some(format!("index {i} has zero weight")) } else { None },
                                     Caught::Panic(m) => Some(format!("panic: {m}")),
                                     Caught::Budget(_) => Some("word budget exceeded".into()),
                                     _ => unreachable!(),
